@@ -90,6 +90,8 @@ Definition run_C16 (cmd : Z) (ints : list Z) (arrs : list (list Q)) : option (li
            if negb okk then None
            else Some (concat (map (map om) outs) ++ concat (map (map oq) outs) ++
                       qtab2 na nc (mean2 nb nd wlon wlat (fun b d => notnull (field b d))))
+  | 11%Z => (* _periodic_overlap: arrs [[x0; x1; y0; y1; period]] *)
+           Some [per_overlap (scalar arrs 0 4) (scalar arrs 0 0) (scalar arrs 0 1) (scalar arrs 0 2) (scalar arrs 0 3)]
   | _ => None
   end.
 
